@@ -93,6 +93,48 @@ def run(tier, seed):
             if len(v.cov["samples"]) < 3 and len(e["resp"]["refs"]) >= 2:
                 v.sample({"thread_frames": T, "anchor_seq": o["x"], "variant": c["_variant"], "predicted": e["resp"], "observed": threads.project_compile(r["ret"])})
 
+    # ---- one store, one history, the same compile asked in different cache states (as built, caches removed, messages+runs
+    #      sidecar unreadable, after a restart): the answers - cut, selected checkpoints BY ID, items - must be identical.
+    #      Histories: a cut that is compacted twice (the later frame for one to_seq wins on every read path) and threads longer
+    #      than the seek-index stride whose 16-message window crosses a stride boundary.
+    def turn(i, extra=5):
+        return [{"op": "message", "t": 0}, {"op": "run_spawned", "t": 0, "m": i, "s": i % 8}, {"op": "run_ended", "t": 0, "m": i, "s": i % 8}] + \
+               [{"op": "cursor_update", "t": 0, "provider": f"p{i % 3}"}] * extra
+    recompact = [{"op": "ensure_default"}, {"op": "message", "t": 0}, {"op": "message", "t": 0},
+                 {"op": "checkpoint", "t": 0, "to_msg": 0, "summary": "first pass"}, {"op": "checkpoint", "t": 0, "to_msg": 0, "summary": "second pass"},
+                 {"op": "message", "t": 0}, {"op": "checkpoint", "t": 0, "to_msg": 1, "summary": "level two, first"},
+                 {"op": "checkpoint", "t": 0, "to_msg": 1, "summary": "level two, corrected"}, {"op": "message", "t": 0}, {"op": "message", "t": 0}]
+    long_a = [{"op": "ensure_default"}] + [o for i in range(44) for o in turn(i)]
+    long_b = [{"op": "ensure_default"}] + [o for i in range(70) for o in turn(i, extra=3)]
+    dh = []
+    for name, hist_ops, anchors in (("recompact", recompact, [2, 3, 4]), ("long352", long_a, [20, 31, 32, 33, 36, 40, 43]), ("long420", long_b, [30, 42, 43, 51, 52, 60, 69])):
+        for a in anchors:
+            q = {"op": "compile", "t": 0, "m": a, "s": 0, "record": False}
+            dh.append({"id": f"diff-{name}-{a}", "ops": hist_ops + [q, {"op": "drop_caches"}, q, {"op": "fault", "t": 0, "file": "mr", "kind": "garbage"}, q,
+                                                                  {"op": "restart"}, q, {"op": "fault", "t": 0, "file": "mr", "kind": "truncate"},
+                                                                  {"op": "fault", "t": 0, "file": "mrseek", "kind": "delete"}, q]})
+    for r in run_harness("hist", dh, wd, "cdiff", shards=8, timeout=900):
+        answers = [x for x, o in zip(r["results"], [h for h in dh if h["id"] == r["id"]][0]["ops"]) if o["op"] == "compile"]
+        names = ["as built", "caches removed", "messages+runs sidecar unreadable", "after restart", "sidecar torn, its seek index deleted"]
+
+        def proj(x):
+            ret = x.get("ret") or {}
+            if not x.get("ok") or not isinstance(ret, dict):
+                return ("failed", str(ret)[:120])
+            b = ret.get("bundle") or {}
+            return (ret.get("from_seq"), ret.get("compiler_strategy"), [c.get("checkpoint_id") for c in ret.get("compaction_checkpoints", [])],
+                    json.dumps(b.get("items"), sort_keys=True))
+        v.add_eval({"cache_state_differential": r["id"]}, True)
+        ref = proj(answers[0])
+        for nm, x in zip(names[1:], answers[1:]):
+            if proj(x) != ref:
+                a_, b_ = ref, proj(x)
+                what = "cut" if a_[0] != b_[0] else "selected checkpoints" if a_[2] != b_[2] else "items" if a_[3] != b_[3] else "strategy"
+                v.violation(f"compile for {r['id']} answers differently {nm} than as built: {what} differ ({str(b_[:3])[:200]} vs {str(a_[:3])[:200]}; "
+                            f"{len(json.loads(b_[3]) or []) if b_[0] != 'failed' else 0} vs {len(json.loads(a_[3]) or [])} items)",
+                            {"engine": "hist", "case": [h for h in dh if h["id"] == r["id"]][0]})
+                break
+
     # ---- compile racing with an append: the compile is parked between its tail scan and its head read while another
     #      writer appends; the cut it reports must be the cut of the truth before or after that append, nothing else
     setup = [{"op": "ensure_default"}, {"op": "message", "t": 0}, {"op": "message", "t": 0}]
